@@ -25,96 +25,7 @@ typedef size_t mfront_gb_size_type;
 
 using verif::Sym;
 using verif::Unit;
-using tfel::material::ModellingHypothesis;
-
-namespace c55 {
-  //! what the mock behaviour received (the strain measure computed by the pre-processing)
-  struct Seen {
-    std::vector<Sym> eto0, eto1, sig0;
-    int constructions = 0;
-  };
-  inline Seen& seen() {
-    static Seen s;
-    return s;
-  }
-
-  /*! mock of a generated small-strain behaviour (the part of its interface used by Integrate.hxx) */
-  template <ModellingHypothesis::Hypothesis H>
-  struct Elasticity {
-    static constexpr unsigned short N =
-        tfel::material::ModellingHypothesisToSpaceDimension<H>::value;
-    static constexpr int S = tfel::math::StensorDimeToSize<N>::value;
-    using real = Sym;
-    using stress = Sym;
-    using speed = Sym;
-    using massdensity = Sym;
-    using BehaviourData = Elasticity;
-    enum SMFlag { STANDARDTANGENTOPERATOR };
-    enum SMType { ELASTIC, SECANTOPERATOR, TANGENTOPERATOR, CONSISTENTTANGENTOPERATOR, NOSTIFFNESSREQUESTED };
-    enum IntegrationResult { SUCCESS, FAILURE, UNRELIABLE_RESULTS };
-    explicit Elasticity(const mfront_gb_BehaviourData& d) {
-      auto& sn = seen();
-      ++sn.constructions;
-      sn.eto0.clear();
-      sn.eto1.clear();
-      sn.sig0.clear();
-      for (int i = 0; i != S; ++i) {
-        eto[i] = d.s0.gradients[i];
-        deto[i] = d.s1.gradients[i] - d.s0.gradients[i];
-        sig[i] = d.s0.thermodynamic_forces[i];
-        sn.eto0.push_back(d.s0.gradients[i]);
-        sn.eto1.push_back(d.s1.gradients[i]);
-        sn.sig0.push_back(d.s0.thermodynamic_forces[i]);
-      }
-      lambda = d.s1.material_properties[0];
-      mu = d.s1.material_properties[1];
-    }
-    void setOutOfBoundsPolicy(const tfel::material::OutOfBoundsPolicy) {}
-    bool initialize() { return true; }
-    void checkBounds() const {}
-    std::pair<bool, real> computeAPrioriTimeStepScalingFactor(const real r) const { return {true, r}; }
-    std::pair<bool, real> computeAPosterioriTimeStepScalingFactor(const real r) const { return {true, r}; }
-    real getMinimalTimeStepScalingFactor() const { return real(1) / 10; }
-    IntegrationResult integrate(const SMFlag, const SMType smt) {
-      using namespace tfel::math;
-      const stensor<N, Sym> e = eto + deto;
-      sig = lambda * trace(e) * stensor<N, Sym>::Id() + 2 * mu * e;
-      if (smt != NOSTIFFNESSREQUESTED) {
-        Dt = lambda * st2tost2<N, Sym>::IxI() + 2 * mu * st2tost2<N, Sym>::Id();
-      }
-      return SUCCESS;
-    }
-    void exportStateData(mfront_gb_State& s) const {
-      for (int i = 0; i != S; ++i) s.thermodynamic_forces[i] = sig[i];
-    }
-    const tfel::math::st2tost2<N, Sym>& getTangentOperator() const { return Dt; }
-    bool computePredictionOperator(const SMFlag, const SMType) { return false; }
-    speed computeSpeedOfSound(const massdensity&) const { return speed(0); }
-    tfel::math::stensor<N, Sym> eto, deto, sig;
-    tfel::math::st2tost2<N, Sym> Dt;
-    Sym lambda, mu;
-  };
-}  // namespace c55
-
-namespace tfel::material {
-  template <ModellingHypothesis::Hypothesis H>
-  struct MechanicalBehaviourTraits<c55::Elasticity<H>> {
-    static constexpr bool is_defined = true;
-    static constexpr bool hasConsistentTangentOperator = true;
-    static constexpr bool isConsistentTangentOperatorSymmetric = true;
-    static constexpr bool hasPredictionOperator = false;
-    static constexpr bool hasComputeInternalEnergy = false;
-    static constexpr bool hasComputeDissipatedEnergy = false;
-    static constexpr bool hasTimeStepScalingFactor = false;
-  };
-}  // namespace tfel::material
-namespace mfront::gb {
-  template <ModellingHypothesis::Hypothesis H>
-  struct GenericBehaviourTraits<c55::Elasticity<H>> {
-    static constexpr auto hypothesis = H;
-    static constexpr auto has_axial_strain_offset = false;
-  };
-}  // namespace mfront::gb
+#include "C55/mock.hxx"
 
 static const double F0_SH[9] = {1.05, 0.95, 1.1, 0.02, -0.03, 0.04, 0.01, -0.02, 0.05};
 static const double F1_SH[9] = {1.1, 0.9, 1.2, 0.1, -0.05, 0.07, 0.02, -0.04, 0.03};
@@ -124,7 +35,7 @@ static const double VP_SH[3] = {1.3, 0.7, 2.1};
 
 template <ModellingHypothesis::Hypothesis H>
 struct Run {
-  using B = c55::Elasticity<H>;
+  using B = c55::Elasticity<H, Sym>;
   static constexpr unsigned short N = B::N;
   static constexpr int S = tfel::math::StensorDimeToSize<N>::value;
   static constexpr int T = tfel::math::TensorDimeToSize<N>::value;
@@ -187,17 +98,17 @@ struct Run {
     d.s1.stored_energy = nullptr;
     d.s1.dissipated_energy = nullptr;
     d.s1.external_state_variables = esv;
-    c55::seen().constructions = 0;
+    c55::seen<Sym>().constructions = 0;
     const auto policy = tfel::material::None;
     const int r = logarithmic ? mfront::gb::logarithmic_strain::integrate<B>(d, policy)
                               : mfront::gb::green_lagrange_strain::integrate<B>(d, policy);
-    if (r != 1 || c55::seen().constructions != 1) {
+    if (r != 1 || c55::seen<Sym>().constructions != 1) {
       std::fprintf(stderr, "C55 tracer: integrate returned %d (%d behaviour constructions)\n", r,
-                   c55::seen().constructions);
+                   c55::seen<Sym>().constructions);
       std::abort();
     }
     // what the behaviour saw: the strain measure at the end of the time step
-    for (int i = 0; i != S; ++i) verif::output("e" + std::to_string(i), c55::seen().eto1[i]);
+    for (int i = 0; i != S; ++i) verif::output("e" + std::to_string(i), c55::seen<Sym>().eto1[i]);
     const int ns = (sm == 2) ? T : S;
     for (int i = 0; i != ns; ++i) verif::output("s" + std::to_string(i), s1[i]);
     const int rows = (to == 2) ? T : S;
